@@ -83,7 +83,8 @@ fn allocated() -> u64 {
 }
 
 // ---------------------------------------------------------------------------
-// in-process watchdog: a call that does not return within 5 s is reported
+// in-process watchdog: a call that does not return within 20 s (counted in the
+// watchdog's own 100 ms ticks, so a paused machine does not count) is reported
 // with its input, then the run is closed (the stuck thread cannot be stopped)
 // ---------------------------------------------------------------------------
 
@@ -130,14 +131,14 @@ fn start_watchdog(r: &Report) {
         std::thread::sleep(Duration::from_millis(100));
         let now = TICK.fetch_add(1, Relaxed) + 1;
         for s in slots().iter() {
-            if s.busy.load(Relaxed) && now.saturating_sub(s.tick.load(Relaxed)) > 50 {
+            if s.busy.load(Relaxed) && now.saturating_sub(s.tick.load(Relaxed)) > 200 {
                 let r = unsafe { &*(rp as *const Report) };
                 let len = s.len.load(Relaxed);
                 let buf = unsafe { &*s.buf.get() };
                 let what = &NAMES.get().unwrap()[s.what.load(Relaxed)];
                 let sec = SECTION.get().unwrap().lock().unwrap().clone();
                 let case = format!("{} input=\"{}\"{}", what, escape(&buf[..len.min(SLOT_BUF)]), if len > SLOT_BUF { format!(" (+{} more bytes)", len - SLOT_BUF) } else { String::new() });
-                r.viol(&sec, &format!("{}/no-termination(>5s)", what), case, "the call did not return within 5 s; run closed");
+                r.viol(&sec, &format!("{}/no-termination(>20s)", what), case, "the call did not return within 20 s (200 watchdog ticks); run closed");
                 r.cap("run closed early by the in-process watchdog (a parser call did not return)");
                 let owned: Report = unsafe { std::ptr::read(rp as *const Report) };
                 owned.finish();
@@ -1467,6 +1468,25 @@ fn blow_bytes(ps: &[Parser], b: &Blow) -> Vec<u8> {
 }
 
 /// Work limits ("work proportional to input"): wall time and allocation.
+
+/// CPU time of the calling thread: the "work proportional to the input"
+/// bounds are judged on it, not on wall-clock time, so that a loaded machine
+/// (or a descheduled worker) cannot turn into a verdict.
+#[derive(Clone, Copy)]
+struct CpuClock(Duration);
+impl CpuClock {
+    fn now() -> CpuClock {
+        let mut ts = libc::timespec { tv_sec: 0, tv_nsec: 0 };
+        // SAFETY: plain syscall wrapper writing into a local struct
+        let rc = unsafe { libc::clock_gettime(libc::CLOCK_THREAD_CPUTIME_ID, &mut ts) };
+        assert_eq!(rc, 0, "clock_gettime(CLOCK_THREAD_CPUTIME_ID)");
+        CpuClock(Duration::new(ts.tv_sec as u64, ts.tv_nsec as u32))
+    }
+    fn elapsed(&self) -> Duration {
+        CpuClock::now().0.saturating_sub(self.0)
+    }
+}
+
 fn time_limit(len: usize) -> f64 {
     if len <= 65_536 {
         5.0
@@ -1555,7 +1575,7 @@ fn child_main(args: &[String]) -> ! {
                 selftest(i);
                 let bytes = sp.bytes(i);
                 let a0 = allocated();
-                let t0 = Instant::now();
+                let t0 = CpuClock::now();
                 let res = guard(|| jiff::tz::TimeZone::tzif("Test/Zone", &bytes));
                 let dt = t0.elapsed().as_secs_f64();
                 let da = allocated() - a0;
@@ -1582,7 +1602,7 @@ fn child_main(args: &[String]) -> ! {
                     Ok(Ok(tz)) => {
                         bump("tzif:accepted", 1);
                         let raw = tzmut::raw_times(&bytes);
-                        let t1 = Instant::now();
+                        let t1 = CpuClock::now();
                         match guard(|| battery::battery(&tz, &raw, true)) {
                             Err(p) => o.viol(&format!("TimeZone::tzif->lookup/{}", panic_sig(&p)), &sp.describe(i), &p),
                             Ok(v) => {
@@ -1624,7 +1644,7 @@ fn child_main(args: &[String]) -> ! {
                 std::fs::write(&path, &bytes).expect("write concat file");
                 let desc = tzmut::concat_describe(m);
                 bump("concat:cases", 1);
-                let t0 = Instant::now();
+                let t0 = CpuClock::now();
                 let db = match guard(|| jiff::tz::TimeZoneDatabase::from_concatenated_path(&path)) {
                     Err(p) => {
                         o.viol(&format!("TimeZoneDatabase::from_concatenated_path/{}", panic_sig(&p)), &desc, &p);
@@ -1689,7 +1709,7 @@ fn child_main(args: &[String]) -> ! {
                 };
                 let p = &ps[pi];
                 let a0 = allocated();
-                let t0 = Instant::now();
+                let t0 = CpuClock::now();
                 let res = guard(|| (p.f)(&bytes));
                 let dt = t0.elapsed().as_secs_f64();
                 let da = allocated() - a0;
